@@ -14,7 +14,7 @@ THEOREMS = ["remembered_only_if", "supported_implies_parse", "store_bounded", "e
             "listen_address_roundtrip", "listener_binds_only_sockets", "reported_dialable_and_local", "local_dial_sound",
             "lookup_respects_dns_type", "public_addresses_name_local", "handle_dial_guarded",
             "dial_failure_rescored_in_every_state", "endpoint_address_is_dialed_address",
-            "established_dial_scores_dialed_address"]
+            "established_dial_scores_dialed_address", "service_add_known_address_keeps_attribution"]
 CONSTS = ["ADDR_MAX_ADDRESSES", "ADDR_CONNECTION_ESTABLISHED", "ADDR_CONNECTION_FAILURE_NEG",
           "ADDR_PUBLIC_ADDRESS_BONUS", "ADDR_FAILURE_IS_I32_MIN"]
 _A = "src/transport/manager/address.rs"
@@ -55,7 +55,14 @@ MANIFEST = {
             "established_dial_scores_dialed_address (the record scored CONNECTION_ESTABLISHED is the dialed multiaddress) over the "
             "transport model Model/Noise/Identity.lean; tied by the c01 area's `tp` op (two real TcpTransports; endpoint address "
             "printed next to the dialed one) and by real nodes dialing /dns|dns4|dns6/localhost/tcp/<listening port> successfully "
-            "with the address book compared before and after (phantom-address / success-not-credited / bystander-rescored).",
+            "with the address book compared before and after (phantom-address / success-not-credited / bystander-rescored). "
+            "Round gsvc: the protocol-facing entry point TransportService::add_known_address (Model/Service/Known.lean: append "
+            "/p2p/<peer> iff the address has no trailing /p2p, otherwise pass it on unchanged) composed with the handle's filter: "
+            "service_add_known_address_keeps_attribution (what reaches the peer table is admissible for the peer and is an offered "
+            "address naming it or an offered address without trailing id with the id appended; an address naming somebody else is "
+            "never rewritten into one of the peer); tied by the c08 area's `known` op (real TransportService + TCP-enabled manager "
+            "handle; kinds: no id / own id / foreign id / two ids / relay shapes; the peer's address book printed after every call) "
+            "run as extra cases, judged by an oracle (foreign-address-remembered / undialable-address-remembered).",
     "note": "Trusted: Lean kernel; axioms propext/Classical.choice/Quot.sound; the hand-written model and its tie (sampled "
             "differential runs through src/verif/c10.rs); multiaddr text parsing and IpNetwork::is_global outside the model "
             "(attributes are data); PeerState reduced to Disconnected/Opening/Dialing in the c10 area — the score updates of the "
@@ -78,7 +85,9 @@ RULE = ("seeded operation histories (cfg tcp/maxout/cap; listen; supported/parse
         "Disconnected-with-record / Connected+secondary, failure kinds t/a/n, open failures with partial error lists; and "
         "closed-loop random histories) with `scores <peer>` around every outcome; 10 `tp` operations (c01 area: open/dial x 5 host "
         "kinds); 13 `dnsdial` node cases (real nodes, /dns*/localhost towards the other node's listening port, by address and "
-        "by peer id)")
+        "by peer id); ~125 `known` histories in the c08 area (3-12 calls of TransportService::add_known_address for 3 peers with "
+        "address kinds tcp/tcpp (legitimate) and wrong/two/twow/relay/circ (foreign id, two ids, relay shapes; mostly on ports no "
+        "legitimate offer uses) and udp/unspec, interleaved with dial by peer id + mgr_recv)")
 TRUSTED_BASE = ["Lean 4.33 kernel", "axioms: propext, Classical.choice, Quot.sound only",
                 "hand-written models Model/Addr/*.lean tied to handle.rs/address.rs/mod.rs/listener.rs by this correspondence run",
                 "adapter /repo/src/verif/c10.rs, harness, verif.py, checks/c10.py, Driver/C10.lean (address text parser, "
@@ -86,6 +95,8 @@ TRUSTED_BASE = ["Lean 4.33 kernel", "axioms: propext, Classical.choice, Quot.sou
                 "multiaddr crate (text <-> components), ip_network::is_global, std is_unspecified/is_loopback: attributes are "
                 "inputs of the model",
                 "HashMap/HashSet iteration order modelled as an arbitrary permutation",
+                "Model/Service/Known.lean (the closure of TransportService::add_known_address) tied by the c08 area: adapter "
+                "/repo/src/verif/c08.rs (`known`: one address per call, 10.0.0.1, peers p / p+100), Driver/C08.lean (kindAddr, showStored)",
                 "every /p2p component of a Multiaddr converts to a litep2p PeerId (C18 accepts_eq_reference)",
                 "listener part: the operating system (socket/bind/listen results, local_addr, NetworkInterface::show) and "
                 "the hickory resolver are inputs of the model, read off the observation (bound=…, ifaces=…, ans=…); the "
@@ -1031,10 +1042,18 @@ def extra_cases(rng, tier):
     if tier == "thorough":
         ops = ops * 3
     yield "C01", c01.chunks(ops, 5)
+    # What PROTOCOLS offer goes through `TransportService::add_known_address` before it reaches the handle's filter: the
+    # c08 area's `known <p> <kind> <port>` op calls it on a real service with a TCP-enabled manager handle and prints the
+    # peer's address book afterwards (kinds: no id / the peer's id / another peer's id / two ids / relay shapes).
+    from . import c08
+    yield "C08", c08.gen_known_cases(rng, tier)
 
 
 def oracle_extra(xpid, case, out):
     from . import mgr_common, c01
+    if xpid == "C08":
+        from . import c08
+        return [dict(v, msg="(real TransportService + manager handle, c08 area) " + v["msg"]) for v in c08.oracle_known(case, out)]
     if xpid == "C01":
         res = []
         for i in range(min(len(case), len(out))):
@@ -1045,6 +1064,9 @@ def oracle_extra(xpid, case, out):
 
 def stats_extra(xpid, case, out, acc):
     from . import mgr_common, c01
+    if xpid == "C08":
+        from . import c08
+        return c08.stats_known(case, out, acc)
     if xpid == "C01":
         return c01.stats(case, out, acc)
     mgr_common.stats_scores(case, out, acc)
